@@ -10,7 +10,7 @@ use std::io::ErrorKind;
 use std::sync::atomic::Ordering;
 use vm_memory::volatile_memory::Error as VErr;
 use std::cell::RefCell;
-use std::collections::BTreeSet;
+use std::collections::{BTreeMap, BTreeSet};
 use std::sync::Arc;
 use vm_memory::bitmap::{ArcSlice, AtomicBitmap, Bitmap, BitmapSlice, RefSlice};
 use vm_memory::{ByteValued, Bytes, MmapRegion, VolatileMemory, VolatileSlice};
@@ -443,6 +443,11 @@ fn run_race<BS: BitmapSlice>(mk: impl Fn(u32) -> Cont<BS>) -> RunInfo {
     }
     let log = RefCell::new(Vec::<String>::new());
     let knames = RefCell::new(Vec::<&'static str>::new());
+    // (event index at start, at end, pages the operation may have written, operation name)
+    let wops = RefCell::new(Vec::<(usize, usize, BTreeSet<usize>, &'static str)>::new());
+    // (event index at start, at end, pages reported)
+    let hrecs = RefCell::new(Vec::<(usize, usize, BTreeSet<usize>)>::new());
+    let npages = in_mode(Mode::Oracle, || bitmap.len());
     let (mut ok_ops, mut rejected) = (0u32, 0u32);
     let copy_pages = |words: &[u64], dest: &mut Vec<u8>| -> usize {
         let now = raw_read(ptr, size);
@@ -458,11 +463,14 @@ fn run_race<BS: BitmapSlice>(mk: impl Fn(u32) -> Cont<BS>) -> RunInfo {
     };
     {
         let conts_ref = &mut conts;
-        let (log2, dest2, harv2, bm2, kn2) = (&log, &dest, &harvests, &bitmap, &knames);
+        let (log2, dest2, harv2, bm2, kn2, wops2, hrecs2) = (&log, &dest, &harvests, &bitmap, &knames, &wops, &hrecs);
         let (ok2, rej2) = (&mut ok_ops, &mut rejected);
         let prog2 = &prog;
         let wbody: Box<dyn FnOnce() + '_> = Box::new(move || {
             for (step, (spec, kind, fd_read, exact)) in prog2.iter().enumerate() {
+                WROTE.with(|w| w.borrow_mut().clear());
+                PARTIAL.with(|p| p.set(false));
+                let t0 = cx().events.len();
                 cx().op_begin(step as u64);
                 if *fd_read {
                     // a descriptor read into the tracked view; the scheduler may run the harvester
@@ -484,6 +492,8 @@ fn run_race<BS: BitmapSlice>(mk: impl Fn(u32) -> Cont<BS>) -> RunInfo {
                         let r = with_allowed(conts_ref[0].rid, &[(cont_base_in_range(&conts_ref[0]) + spec.off, cont_base_in_range(&conts_ref[0]) + spec.off + spec.len)], || if *exact { flat(catch(|| view.read_exact_volatile_from(0, &mut f, n.min(spec.len))), obs_unit) } else { flat(catch(|| view.read_volatile_from(0, &mut f, n)), obs_count) });
                         log2.borrow_mut().push(format!("writer: view{:?}(+{},{}) {}(File, {}) -> {:?}", spec.steps, spec.off, spec.len, if *exact { "read_exact_volatile_from" } else { "read_volatile_from" }, n, r));
                         kn2.borrow_mut().push(if *exact { "read_exact_volatile_from(File)" } else { "read_volatile_from(File)" });
+                        // anything inside the view may have been written (and is marked on failure)
+                        note_w(0, spec.off, spec.off + spec.len);
                         *ok2 += 1;
                     }
                 } else {
@@ -492,11 +502,24 @@ fn run_race<BS: BitmapSlice>(mk: impl Fn(u32) -> Cont<BS>) -> RunInfo {
                     log2.borrow_mut().push(format!("writer: view{:?}(+{},{}) {}", spec.steps, spec.off, spec.len, desc));
                 }
                 cx().op_end(step as u64, 0);
+                let mut pages = BTreeSet::new();
+                if PARTIAL.with(|p| p.get()) {
+                    // a request that failed part-way: precision is judged by the sequential parts only
+                    pages.extend(0..npages);
+                }
+                for &(_, off, len) in WROTE.with(|w| w.borrow().clone()).iter() {
+                    for p in (base_off + off) / ps..=(base_off + off + len - 1) / ps {
+                        pages.insert(p);
+                    }
+                }
+                let kn = kn2.borrow().last().copied().unwrap_or("");
+                wops2.borrow_mut().push((t0, cx().events.len(), pages, kn));
             }
         });
         let hbody: Box<dyn FnOnce() + '_> = Box::new(move || {
             for h in 0..nharv {
                 crate::sim::yield_point();
+                let h0 = cx().events.len();
                 cx().op_begin(100 + h as u64);
                 let words = match catch(|| bm2.get_and_reset()) {
                     OpOutcome::Ok(w) => w,
@@ -505,6 +528,8 @@ fn run_race<BS: BitmapSlice>(mk: impl Fn(u32) -> Cont<BS>) -> RunInfo {
                 // the pages reported are copied at once (the earliest a VMM could do it)
                 let n = in_mode(Mode::Oracle, || copy_pages(&words, &mut dest2.borrow_mut()));
                 cx().op_end(100 + h as u64, 0);
+                let rep: BTreeSet<usize> = (0..words.len() * 64).filter(|p| words[p / 64] >> (p % 64) & 1 == 1).collect();
+                hrecs2.borrow_mut().push((h0, cx().events.len(), rep));
                 harv2.borrow_mut().push(format!("harvest {}: {} byte(s) copied", h, n));
                 log2.borrow_mut().push(format!("harvester: get_and_reset() reported {} dirty byte(s) of the container", n));
             }
@@ -524,6 +549,29 @@ fn run_race<BS: BitmapSlice>(mk: impl Fn(u32) -> Cont<BS>) -> RunInfo {
     // the last round of the migration: everything still marked is copied
     let words = in_mode(Mode::Oracle, || bitmap.get_and_reset());
     copy_pages(&words, &mut dest.borrow_mut());
+    {
+        // precision under the race (C16): a page is reported only if some operation that may have
+        // written it was still running, or ran, after the previous report of that page began
+        let fin: BTreeSet<usize> = (0..words.len() * 64).filter(|p| words[p / 64] >> (p % 64) & 1 == 1).collect();
+        let mut reports = hrecs.borrow().clone();
+        reports.push((usize::MAX - 1, usize::MAX, fin));
+        let wops = wops.borrow();
+        let mut last_report_start: BTreeMap<usize, usize> = BTreeMap::new();
+        'outer: for (h0, _h1, rep) in reports.iter() {
+            for &p in rep {
+                let since = last_report_start.get(&p).copied().unwrap_or(0);
+                let justified = wops.iter().any(|(_t0, t1, pages, _)| pages.contains(&p) && *t1 > since);
+                if !justified {
+                    let line = log.borrow().join(" | ");
+                    cx().violate("C16", "C16/spurious-after-harvest", format!("{} racing with a harvest through {}", knames.borrow().join(" + "), flavour), format!("{}: page {} (page size {}, slice base offset {}) was reported dirty although no operation wrote it since it was last reported", line, p, ps, base_off));
+                    break 'outer;
+                }
+            }
+            for &p in rep {
+                last_report_start.insert(p, *h0);
+            }
+        }
+    }
     let now = raw_read(ptr, size);
     let d = dest.borrow();
     if let Some(i) = (0..size).find(|&i| now[i] != d[i]) {
